@@ -329,7 +329,7 @@ def rule_h(ctx, R):
             r = v.root(a)
             if r.kind == "local" and r.base[1] == rd["local"]:
                 uses.append(bi)
-    ok = not in_loop and all(cfg.dominates(idom, rd["ctor_bb"], u) for u in uses) and len(uses) >= 3
+    ok = not in_loop and all(cfg.dominates(idom, rd["ctor_bb"], u) for u in uses) and len(uses) >= 3 and rd.get("ctor_calls", 1) == 1
     ctx.ob("C17-h", "reader constructed once per call from the slice parameter, dominating its %d uses" % len(uses), ok, s.path, "fresh-reader")
 
 
